@@ -23,6 +23,20 @@ IsPow2(n) == n >= 1 /\ (n = 1 \/ (n % 2 = 0 /\ IsPow2(n \div 2)))
 
 RoundUp(n, a) == ((n + a - 1) \div a) * a
 
+(* ------------------- symbolic integers (enum values) ------------------- *)
+(* TLC's integers are 32 bit; discriminants range over isize.  A value is  *)
+(* an anchor plus a small offset, [a |-> anchor, d |-> delta]; anchors are *)
+(* far apart, so order is lexicographic in (rank of anchor, delta) as long *)
+(* as |delta| stays small.  The harness maps anchors to concrete literals. *)
+Anchors == <<"i128min", "i64min", "i32min", "i16min", "i8min", "0", "i8max", "u8max", "i16max", "u16max",
+             "i32max", "u32max", "i64max", "u64max", "i128max", "u128max">>
+AnchorRank(a) == CHOOSE i \in DOMAIN Anchors : Anchors[i] = a
+NumNone == [a |-> "none", d |-> 0]
+Num(a, d) == [a |-> a, d |-> d]
+NumInt(n) == [a |-> "0", d |-> n]          \* small plain integers
+NumSucc(x) == [x EXCEPT !.d = @ + 1]
+NumLE(x, y) == AnchorRank(x.a) < AnchorRank(y.a) \/ (x.a = y.a /\ x.d <= y.d)
+
 (* ------------------------------ sequences ------------------------------ *)
 Last(s) == s[Len(s)]
 Front(s) == SubSeq(s, 1, Len(s) - 1)
@@ -88,6 +102,7 @@ TypeDef(name, vis, fields) ==
    copyable |-> FALSE, cloneable |-> FALSE, defaultable |-> FALSE,
    vft |-> NoVft, fields |-> fields]
 
+(* val : a symbolic integer, NumNone when no value is written              *)
 Variant(name, val, dflt) == [name |-> name, val |-> val, dflt |-> dflt]
 EnumDef(name, vis, base, vars) ==
   [k |-> "enum", name |-> name, vis |-> vis, doc |-> <<>>, base |-> base,
